@@ -39,6 +39,17 @@ function injections(p) {
       // drop the end tag `</name>`
       const end = tokens[i + 2]
       out.push({ name: `drop-end-tag@${t.off}`, text: cut(t.off, end.offEnd), expect: ['missing end tag'] })
+      // ... of an element whose name has an upper-case letter (the name gets a note of its own at the place the missing end tag is
+      // reported at: one diagnostic must not stand in for the other)
+      const nm = tokens[i + 1].text
+      if (!['block', 'template', 'slot', 'include', 'import', 'wxs'].includes(nm) && /^[a-z]/.test(nm)) {
+        const dropped = cut(t.off, end.offEnd)
+        let at = -1
+        for (let k = dropped.lastIndexOf('<' + nm, t.off); k >= 0; k = k === 0 ? -1 : dropped.lastIndexOf('<' + nm, k - 1)) {
+          if (!/[A-Za-z0-9_:-]/.test(dropped[k + 1 + nm.length] || ' ')) { at = k; break }
+        }
+        if (at >= 0) out.push({ name: `drop-end-tag-of-upper-case-name@${t.off}`, text: dropped.slice(0, at + 1) + nm[0].toUpperCase() + dropped.slice(at + 2), expect: ['missing end tag'] })
+      }
       // cut the text inside the end tag (an unterminated tag): after `</` and after `</name`
       out.push({ name: `cut-end-tag-after-name@${end.off}`, text: text.slice(0, end.off), expect: ['incomplete tag', 'missing end tag'] })
       out.push({ name: `cut-end-tag-after-slash@${t.offEnd}`, text: text.slice(0, t.offEnd), expect: ['incomplete tag', 'missing end tag', 'invalid end tag', 'unexpected character'] })
